@@ -352,13 +352,31 @@ def run_stream(stream: Stream, tier: str, seed: int, use_model: bool, extra_case
                 if n == 0:
                     continue
                 mo = stream.model_out(c, outs[a : a + n])
-                if not stream.agree(c, io, mo):
+                try:
+                    same = stream.agree(c, io, mo)
+                except Exception:
+                    if not io.startswith("EXC"):
+                        raise
+                    same = False        # the adapter raised: whatever the model says, this is a disagreement
+                if not same:
                     res.disagreements.append((c, io, mo))
     for c, io in zip(cases, impl_outs):
-        why = stream.oracle(c, io)
+        # an exception that escaped the adapter is recorded as "EXC:…"; a stream whose oracle / bookkeeping cannot read that must
+        # not take the whole check down (the model comparison above has already recorded the disagreement)
+        try:
+            why = stream.oracle(c, io)
+        except Exception:
+            if not io.startswith("EXC"):
+                raise
+            why = None
         if why is not None:
             res.failures.append((c, io, why))
-        k = stream.nontrivial(c, io)
+        try:
+            k = stream.nontrivial(c, io)
+        except Exception:
+            if not io.startswith("EXC"):
+                raise
+            k = None
         if k is not None:
             res.nontrivial.add(k if isinstance(k, (str, int, tuple)) else repr(k))
         hk = io.split(":")[0][:24] if io.startswith(("EXC", "err")) else "ok"
